@@ -1212,6 +1212,54 @@ func checkArgRegsNotClobbered(c *core.Ctx) {
 			}
 			return true
 		})
+		// … or a call of a one-level helper that makes that comparison with the register it is given
+		ast.Inspect(fd.Body, func(x ast.Node) bool {
+			call, ok := x.(*ast.CallExpr)
+			if !ok {
+				return true
+			}
+			f := core.Callee(info, call)
+			if f == nil {
+				return true
+			}
+			var helper *ast.FuncDecl
+			core.AllFuncDecls(p, func(g *ast.FuncDecl) {
+				if info.Defs[g.Name] == types.Object(f) {
+					helper = g
+				}
+			})
+			if helper == nil || helper == fd {
+				return true
+			}
+			// parameters of the helper that it compares with an argument's real register
+			cmpParams := map[types.Object]bool{}
+			ast.Inspect(helper.Body, func(y ast.Node) bool {
+				if be, ok := y.(*ast.BinaryExpr); ok && (be.Op == token.EQL || be.Op == token.NEQ) {
+					for _, pair := range [][2]ast.Expr{{be.X, be.Y}, {be.Y, be.X}} {
+						if id, ok := pair[1].(*ast.Ident); ok && strings.Contains(core.ExprStr(pair[0]), "RealReg()") {
+							if o := info.Uses[id]; o != nil {
+								cmpParams[o] = true
+							}
+						}
+					}
+				}
+				return true
+			})
+			idx := 0
+			for _, fl := range helper.Type.Params.List {
+				for _, nm := range fl.Names {
+					if cmpParams[info.Defs[nm]] && idx < len(call.Args) {
+						if id, ok := call.Args[idx].(*ast.Ident); ok {
+							if o := info.Uses[id]; o != nil {
+								guarded[o] = true
+							}
+						}
+					}
+					idx++
+				}
+			}
+			return true
+		})
 		// locals bound to a fixed register: tmp := r11VReg
 		alias := map[types.Object]types.Object{}
 		ast.Inspect(fd.Body, func(x ast.Node) bool {
